@@ -149,6 +149,8 @@ GRAPH_RULES = [
     V(r"xt::col\(\s*(\w+)\s*,\s*0\s*\)\s*=\s*xt::col\(\s*(\w+)\s*,\s*0\s*\);", r"FSL_ASSIGN_COL0(\1, \2);"),
     # xtensor whole-array assignment
     V(r"\b((?:snap|src)_(?:%s))\s*=\s*((?:snap|src)_(?:%s));" % (NAMES, NAMES), r"FSL_ASSIGN_ALL(\1, \2);"),
+    # a reference alias to a table (`auto& t = graph_impl_snapshot.m_receivers;`): tables are pointers in the model
+    V(r"(?:const\s+)?auto&\s+(\w+)\s*=\s*((?:snap|src)_(?:%s));" % NAMES, r"__typeof__(\2) \1 = \2;"),
     # element access in a changed body
     V(r"\b((?:snap|src)_(?:%s))\.flat\(" % NAMES, r"FSL_FLAT(\1, "),
     V(r"\b((?:snap|src)_(?:%s))\(([^(),]+)\)" % NAMES, r"\1[\2]"),
@@ -483,3 +485,10 @@ PROPS = {
         explanation="snapshot.py decides the save.covers_state, save.no_alias and elevation_snapshot clauses; the read-only guards are in opseq.py.",
     ),
 }
+
+
+# native replay: snapshots against prefix graphs on real objects
+for _lst in GROUPS.values():
+    for _g in _lst:
+        if not getattr(_g, "replay", None):
+            _g.replay = "replay/snapshot.cpp"
